@@ -1048,20 +1048,20 @@ Theorem C16_zsh_args_fail_only_on_conflicts : forall c d g,
 Proof. intros c d g. exact (conj (get_args_of_guard c d g) (conj (get_args_of_unresolved c d g) (args_body_total c d g))). Qed.
 Print Assumptions C16_zsh_args_fail_only_on_conflicts.
 
-(** the LOCAL boolean class in which nothing panics: every blacklist entry of an option / flag names an argument of its
-    command, or -- when the option / flag is not global -- a group of its command.  Resolution for a command written below
-    its parent (or the root) ... *)
+(** the LOCAL boolean class in which nothing panics: every blacklist entry of an option / flag names an argument or a group
+    of its command (round 4 had to ask the entries of a GLOBAL option / flag to name arguments: finding
+    zsh-global-conflicts-group, repaired since).  Resolution for a command written below its parent (or the root) ... *)
 Theorem C16_zsh_conflicts_local : forall m g,
   conflicts_local m = true -> (forall p, g = Some p -> In m (c_subs p)) -> conflicts_resolve m g = true.
 Proof. exact conflicts_local_resolve. Qed.
 Print Assumptions C16_zsh_conflicts_local.
 
-(** ... the local class spelled out = clap's configuration check ([id_exists]: argument or group, for every entry) AND every
-    entry of a GLOBAL option / flag names an ARGUMENT: the second conjunct is the class that excludes the [expect] ... *)
+(** ... the local class spelled out IS clap's configuration check ([id_exists]: argument or group, for every entry of an
+    option / flag) -- the generator is total for every tree that check accepts (with exact lookup: next theorem) ... *)
 Theorem C16_zsh_conflicts_local_meaning : forall m,
   conflicts_local m = true <->
   forall a, In a (c_args m) -> a_is_positional a = false -> forall id, In id (a_blacklist a) ->
-    (is_some (find_arg m id) || find_group m id)%bool = true /\ (a_global a = true -> is_some (find_arg m id) = true).
+    (is_some (find_arg m id) || find_group m id)%bool = true.
 Proof. exact conflicts_local_meaning. Qed.
 Print Assumptions C16_zsh_conflicts_local_meaning.
 
@@ -1085,19 +1085,54 @@ Theorem C16_zsh_conflicts_group_example :
 Proof. exact zsh_conflicts_group_example. Qed.
 Print Assumptions C16_zsh_conflicts_group_example.
 
-(** ... and the boundary = finding [zsh-global-conflicts-group]: clap's configuration check ([id_exists]: every blacklist
-    entry names an argument or a group of its command) accepts a GLOBAL argument that conflicts with a GROUP, the lookup
-    of [get_global_arg_conflicts_with] consults arguments only and [expect]s: a one-node tree in every other class of the
-    zsh theorems for which the generator writes NO script, whatever the texts (replayed: the real generator panics) *)
-Theorem C16_zsh_global_conflicts_group_refuted :
-  exists c b,
-    c_bin c = Some b /\ linked c /\ nospace c /\ sibling_names c /\
-    (forall n, (n = c \/ desc c n) -> forall a, In a (c_args n) -> forall id, In id (a_blacklist a) ->
-       (is_some (find_arg n id) || find_group n id)%bool = true) /\
-    conflicts_local c = false /\
-    forall d, zsh_script c d = None.
-Proof. exact zsh_global_conflicts_group_refuted. Qed.
-Print Assumptions C16_zsh_global_conflicts_group_refuted.
+(** ... the former boundary = finding [zsh-global-conflicts-group], REPAIRED (the model follows the repaired
+    [get_global_arg_conflicts_with]: arguments of the command and of the subcommands containing the argument first, then the
+    GROUP of that id in the first of these commands that has one, else the panic).  One entry of a global argument resolves
+    iff it names an argument of that pool or a group of one of these commands ... *)
+Theorem C16_zsh_global_conflict_entry : forall x a id,
+  global_conflict_targets x a id <> None <->
+  (is_some (find (fun y => beq (a_id y) id) (global_pool x a))
+   || existsb (fun c => find_group c id) (x :: subcommands_containing x (a_id a)))%bool = true.
+Proof. exact global_conflict_targets_resolves. Qed.
+Print Assumptions C16_zsh_global_conflict_entry.
+
+(** ... the PARENT-AWARE class, wider than the local one ([x] = the command the lookup of a global argument runs on: the
+    parent, or the command itself at the root): an entry of a global option / flag of [m] may name an argument or a group of
+    [m] OR of [x] -- a global argument copied into [m] may keep naming things of the command it came from; the local class
+    is inside it; at the root clap's check is all it takes; at every node of an exact-lookup tree: [zsh_ok], total ... *)
+Theorem C16_zsh_conflicts_parent_class :
+  (forall x m a id, entry_ok_at x m a id =
+     if a_global a then (is_some (find_arg m id) || find_group m id || is_some (find_arg x id) || find_group x id)%bool
+     else (is_some (find_arg m id) || find_group m id)%bool) /\
+  (forall m g, conflicts_ok_at (lookup_cmd g m) m = true -> (forall p, g = Some p -> In m (c_subs p)) ->
+     conflicts_resolve m g = true) /\
+  (forall x m, conflicts_local m = true -> conflicts_ok_at x m = true) /\
+  (forall c d b, c_bin c = Some b -> linked c -> nospace c -> sibling_names c -> conflicts_ok_at c c = true ->
+     (forall p sc, (p = c \/ desc c p) -> In sc (c_subs p) -> conflicts_ok_at p sc = true) ->
+     zsh_ok c b /\ exists s, zsh_script c d = Some s).
+Proof.
+  split; [reflexivity|]. split; [exact conflicts_ok_at_resolve|]. split; [exact conflicts_local_ok_at|].
+  intros c d b H1 H2 H3 H4 H5 H6. exact (conj (zsh_ok_at c b H1 H2 H3 H4 H5 H6) (zsh_total_at c d b H1 H2 H3 H4 H5 H6)).
+Qed.
+Print Assumptions C16_zsh_conflicts_parent_class.
+
+(** ... and the witness trees of the finding now get their scripts: [--g] global, conflicting with the group [grp] = {a}.  The
+    one-node tree is in the local class and in [zsh_ok], the conflict resolves to [a], a script is written for EVERY assignment
+    of texts and has the line ['(--a)--g[]' \]; so has the arm [(s)] of a subcommand that received both global arguments
+    (the group of the parent and of [s]) and of a subcommand that declares the global argument and the group ITSELF (the
+    group of a subcommand containing the argument: not reached by a fallback to the parent's groups alone).  Same files
+    from the repaired generator (corpus/C16/zsh-model.round4.cases) *)
+Theorem C16_zsh_global_conflicts_group_fixed :
+  conflicts_local zg_root = true /\ conflicts_ok_at zg_root zg_root = true /\ zsh_ok zg_root [112] /\
+  get_arg_conflicts_with zg_root zg_g = Some [zg_a] /\
+  (forall d, exists s, zsh_script zg_root d = Some s) /\
+  (exists s, zsh_script zg_root cd0 = Some s /\ sublist [39; 40; 45; 45; 97; 41; 45; 45; 103; 91; 93; 39; 32; 92] s) /\
+  (exists s, generate_zsh zg_user cd0 [112] = Some s /\
+     sublist ([40; 115; 41; 10] ++ zrender args_header ++ [10; 39; 40; 45; 45; 97; 41; 45; 45; 103; 91; 93; 39; 32; 92]) s) /\
+  (exists s, generate_zsh zg_sub_user cd0 [112] = Some s /\
+     sublist ([40; 115; 41; 10] ++ zrender args_header ++ [10; 39; 40; 45; 45; 97; 41; 45; 45; 103; 91; 93; 39; 32; 92]) s).
+Proof. exact zsh_global_conflicts_group_fixed. Qed.
+Print Assumptions C16_zsh_global_conflicts_group_fixed.
 (* ---- end zsh generator model ---- *)
 
 (* ---- Command::build and the tree the user wrote (round 3) ---- *)
